@@ -59,6 +59,9 @@ def orObj (a b : Option Nat) : Option Nat :=
 /-- a call on another object that is only recorded (e.g. `out.push_data(data, t)`): the trace grows by its argument -/
 def recordPush {α} (trace : List α) (x : α) : Except Err (List α) := pure (trace ++ [x])
 
+/-- a call on another object that is recorded and answered with a given value (e.g. the upstream pull of an adapter) -/
+def recordReq {α β} (trace : List β) (x : β) (ans : α) : Except Err (α × List β) := pure (ans, trace ++ [x])
+
 /-- a user hook (`_initialize`, `_update`, …): leaves the component's status alone (`none`) or sets it (`some s`) -/
 def hook (o : Option Int) (st : Int) : Except Err Int := pure (o.getD st)
 
